@@ -4,18 +4,31 @@ From AGH Require Import Base.Run Model.Dhcp4.
 Import ListNotations.
 Local Open Scope N_scope.
 
+#[global] Arguments alloc_fuel : simpl never.
+
 (** * The invariant *)
 
 Definition ips (ls : list lease) : list N := map l_ip ls.
 Definition macs (ls : list lease) : list N := map l_mac ls.
 
+(** The hardware addresses of clients: the all-zero address marks a
+    block-listed address and is nobody's. *)
+Definition live (m : N) : bool := negb (is_blocklisted m).
+Definition cmacs (ls : list lease) : list N := filter live (macs ls).
+
+(** Dynamic leases carry 6-byte addresses (messages, block-listing), static
+    ones what ValidateMAC accepts. *)
+Definition mac_ok (l : lease) : Prop :=
+  if l_static l then valid_mac (l_mac l) = true else mac_len (l_mac l) = 6.
+
 (** About the lease list alone. *)
 Record ListInv (c : conf) (L : list lease) : Prop := {
   li_ip : NoDup (ips L);
-  li_mac : NoDup (macs L);
+  li_mac : NoDup (cmacs L);
   li_dyn : forall l, In l L -> l_static l = false -> in_pool c (l_ip l) = true;
   li_stat : forall l, In l L -> l_static l = true ->
-            in_subnet c (l_ip l) = true /\ l_ip l <> c_gw c
+            in_subnet c (l_ip l) = true /\ l_ip l <> c_gw c;
+  li_len : forall l, In l L -> mac_ok l
 }.
 
 (** Address index and leased-offset set describe the list exactly. *)
@@ -27,8 +40,9 @@ Record IdxInv (c : conf) (L : list lease) (x : index) : Prop := {
 (** What a restart needs from the file. *)
 Record DiskInv (c : conf) (D : list lease) : Prop := {
   di_ip : NoDup (ips D);
-  di_mac : NoDup (macs D);
-  di_gw : forall l, In l D -> l_static l = true -> l_ip l <> c_gw c
+  di_mac : NoDup (cmacs D);
+  di_gw : forall l, In l D -> l_static l = true -> l_ip l <> c_gw c;
+  di_len : forall l, In l D -> mac_ok l
 }.
 
 Record Inv (c : conf) (s : state) : Prop := {
@@ -49,6 +63,25 @@ Lemma ips_app a b : ips (a ++ b) = ips a ++ ips b.
 Proof. apply map_app. Qed.
 Lemma macs_app a b : macs (a ++ b) = macs a ++ macs b.
 Proof. apply map_app. Qed.
+Lemma cmacs_app a b : cmacs (a ++ b) = cmacs a ++ cmacs b.
+Proof. unfold cmacs. rewrite macs_app. apply filter_app. Qed.
+Lemma cmacs_cons l L : cmacs (l :: L) = if live (l_mac l) then l_mac l :: cmacs L else cmacs L.
+Proof. reflexivity. Qed.
+Lemma in_cmacs m L : In m (cmacs L) <-> In m (macs L) /\ live m = true.
+Proof. unfold cmacs. apply filter_In. Qed.
+Lemma not_in_cmacs m L : ~ In m (macs L) -> ~ In m (cmacs L).
+Proof. rewrite in_cmacs. tauto. Qed.
+
+Lemma blocklist_mac_len : mac_len blocklist_mac = 6.
+Proof. reflexivity. Qed.
+Lemma blocklist_mac_dead : live blocklist_mac = false.
+Proof. reflexivity. Qed.
+Lemma len6_valid m : mac_len m = 6 -> valid_mac m = true.
+Proof. unfold valid_mac. intros ->. reflexivity. Qed.
+Lemma mac_ok_valid l : mac_ok l -> valid_mac (l_mac l) = true.
+Proof. unfold mac_ok. destruct (l_static l); auto using len6_valid. Qed.
+Lemma copy_mac_same dst src : mac_len dst = mac_len src -> copy_mac dst src = src.
+Proof. unfold copy_mac. intros ->. rewrite N.eqb_refl. reflexivity. Qed.
 
 Lemma find_index_some {A} (p : A -> bool) l i a :
   find_index p l = Some (i, a) -> nth_error l i = Some a /\ p a = true.
@@ -135,22 +168,28 @@ Proof.
   - auto.
 Qed.
 
-Lemma Thin_nodup_mac L L' : Thin L L' -> NoDup (macs L) -> NoDup (macs L').
+Lemma Thin_in_cmac L L' : Thin L L' -> forall m, In m (cmacs L') -> In m (cmacs L).
+Proof. intros T m. rewrite !in_cmacs. intros [H ?]. split; auto. eapply Thin_in_mac; eauto. Qed.
+
+Lemma Thin_nodup_mac L L' : Thin L L' -> NoDup (cmacs L) -> NoDup (cmacs L').
 Proof.
-  induction 1; cbn; intros N; auto; inversion N; subst.
-  - constructor; auto. destruct H as (_ & <- & _). intro Hin. apply H3. eapply Thin_in_mac; eauto.
-  - auto.
+  induction 1; rewrite ?cmacs_cons; intros N; auto.
+  - destruct H as (_ & E & _). rewrite <- E. destruct (live (l_mac l)); auto.
+    inversion N; subst. constructor; auto. intro Hin. apply H2. eapply Thin_in_cmac; eauto.
+  - destruct (live (l_mac l)); auto. inversion N; auto.
 Qed.
 
 Lemma Thin_ListInv c L L' : Thin L L' -> ListInv c L -> ListInv c L'.
 Proof.
-  intros T [A B C D]. split.
+  intros T [A B C D E]. split.
   - eapply Thin_nodup_ip; eauto.
   - eapply Thin_nodup_mac; eauto.
   - intros l' Hl' Hs. destruct (Thin_in _ _ T _ Hl') as (l & Hl & (E1 & _ & E3)).
     rewrite <- E1. apply C; congruence.
   - intros l' Hl' Hs. destruct (Thin_in _ _ T _ Hl') as (l & Hl & (E1 & _ & E3)).
     rewrite <- E1. apply D; congruence.
+  - intros l' Hl'. destruct (Thin_in _ _ T _ Hl') as (l & Hl & (_ & E2 & E3)).
+    specialize (E l Hl). unfold mac_ok in *. rewrite <- E2, <- E3. exact E.
 Qed.
 
 Lemma Thin_app_keep P L L' : Thin L L' -> Thin (P ++ L) (P ++ L').
@@ -229,18 +268,21 @@ Qed.
 
 Lemma add_lease_inv c l s s' :
   Inv c s -> add_lease c l s = Some s' ->
-  ~ In (l_ip l) (ips (leases s)) -> ~ In (l_mac l) (macs (leases s)) ->
-  (l_static l = true -> l_ip l <> c_gw c) ->
+  ~ In (l_ip l) (ips (leases s)) -> ~ In (l_mac l) (cmacs (leases s)) ->
+  (l_static l = true -> l_ip l <> c_gw c) -> mac_ok l ->
   Inv c s'.
 Proof.
-  intros [[A B C D] I K] H Hip Hmac Hgw.
+  intros [[A B C D E] I K] H Hip Hmac Hgw Hok.
   destruct (add_lease_some _ _ _ _ H) as (EL & ED & EI & EO & Hchk).
   split.
   - rewrite EL. split.
     + rewrite ips_app. apply NoDup_snoc; auto.
-    + rewrite macs_app. apply NoDup_snoc; auto.
+    + rewrite cmacs_app, cmacs_cons. change (cmacs []) with (@nil N). destruct (live (l_mac l)).
+      * apply NoDup_snoc; auto.
+      * rewrite app_nil_r; auto.
     + intros x Hx Hs. apply in_app_iff in Hx as [Hx|[<-|[]]]; auto. rewrite Hs in Hchk; auto.
     + intros x Hx Hs. apply in_app_iff in Hx as [Hx|[<-|[]]]; auto. rewrite Hs in Hchk; auto.
+    + intros x Hx. apply in_app_iff in Hx as [Hx|[<-|[]]]; auto.
   - rewrite EL. destruct (ix s') as [h i o]; cbn in EI, EO; subst i o.
     apply (IdxInv_same_ips c (leases s ++ [l]) _ _ eq_refl).
     destruct (IdxInv_add c _ _ l I) as [P Q]. split; auto.
@@ -379,40 +421,80 @@ Proof.
   apply in_map_iff in Hin as (k & <- & Hk). apply in_seq in Hk. lia.
 Qed.
 
-Lemma NoDup_replace_mac l1 (l : lease) l2 m :
-  NoDup (macs (l1 ++ l :: l2)) -> ~ In m (macs (l1 ++ l :: l2)) ->
-  NoDup (macs (l1 ++ set_mac l m :: l2)).
+Lemma NoDup_replace_cmac l1 (l l' : lease) l2 :
+  NoDup (cmacs (l1 ++ l :: l2)) -> ~ In (l_mac l') (cmacs (l1 ++ l :: l2)) ->
+  NoDup (cmacs (l1 ++ l' :: l2)).
 Proof.
-  rewrite !macs_app. cbn. intros N H.
-  apply NoDup_remove in N as [N1 N2].
-  apply Permutation_NoDup with (l := m :: macs l1 ++ macs l2).
+  rewrite !cmacs_app, !cmacs_cons. intros N H.
+  assert (N0 : NoDup (cmacs l1 ++ cmacs l2)).
+  { destruct (live (l_mac l)); auto. eapply NoDup_remove_1; eauto. }
+  assert (H0 : ~ In (l_mac l') (cmacs l1 ++ cmacs l2)).
+  { intro Hin. apply H. apply in_app_iff in Hin. apply in_app_iff.
+    destruct (live (l_mac l)); cbn; tauto. }
+  destruct (live (l_mac l')); auto.
+  apply Permutation_NoDup with (l := l_mac l' :: cmacs l1 ++ cmacs l2).
   - apply Permutation_middle.
-  - constructor; auto. intro Hin. apply H. apply in_app_iff in Hin. rewrite in_app_iff. cbn. tauto.
+  - constructor; auto.
 Qed.
 
-Lemma reserve_inv c now mac s :
-  Inv c s -> ~ In mac (macs (leases s)) -> Inv c (fst (reserve c now mac s)).
+Lemma nth_error_update_nth {A} i (f : A -> A) L a :
+  nth_error L i = Some a -> nth_error (update_nth i f L) i = Some (f a).
 Proof.
-  intros I Hmac. unfold reserve.
+  revert i; induction L as [|x L IH]; destruct i; cbn; intros H; try discriminate.
+  - inversion H; auto.
+  - auto.
+Qed.
+
+Lemma expired_dynamic now l : expired now l = true -> l_static l = false.
+Proof. unfold expired. intros H. apply andb_true_iff in H as [H _]. apply negb_true_iff in H. exact H. Qed.
+
+Lemma reserve_inv c now mac s :
+  Inv c s -> mac_len mac = 6 -> ~ In mac (cmacs (leases s)) -> Inv c (fst (reserve c now mac s)).
+Proof.
+  intros I Hlen Hmac. unfold reserve.
   destruct (next_ip c s) as [ip|] eqn:En.
   - destruct (add_lease c _ s) as [s'|] eqn:Ea; cbn; auto.
-    eapply add_lease_inv; eauto; cbn; [|discriminate].
+    eapply add_lease_inv; eauto; try (cbn; discriminate); try exact Hlen.
     eapply next_ip_fresh; eauto. apply I.
   - destruct (find_expired now (leases s)) as [[i l]|] eqn:Ef; cbn; auto.
-    apply find_index_some in Ef as [Ei _].
+    apply find_index_some in Ef as [Ei Ee]. apply expired_dynamic in Ee.
     destruct (nth_error_split' _ _ _ Ei) as (l1 & l2 & EL & <-).
-    destruct I as [[A B C D] X K]. rewrite EL in *. rewrite update_nth_split.
+    destruct I as [[A B C D E] X K]. rewrite EL in *. rewrite update_nth_split. cbn beta.
+    assert (El : mac_len (l_mac l) = 6).
+    { assert (Hl : In l (l1 ++ l :: l2)) by (rewrite in_app_iff; cbn; auto).
+      specialize (E l Hl). unfold mac_ok in E. rewrite Ee in E. exact E. }
+    rewrite copy_mac_same by congruence.
     assert (Eips : ips (l1 ++ l :: l2) = ips (l1 ++ set_mac l mac :: l2)).
     { rewrite !ips_app; reflexivity. }
     split; cbn; auto.
     + split.
       * rewrite <- Eips; auto.
-      * apply NoDup_replace_mac; auto.
+      * apply NoDup_replace_cmac with (l := l); auto.
       * intros y Hy. apply in_app_iff in Hy as [Hy|[<-|Hy]]; cbn;
           [apply C|apply (C l)|apply C]; rewrite in_app_iff; cbn; auto.
       * intros y Hy. apply in_app_iff in Hy as [Hy|[<-|Hy]]; cbn;
           [apply D|apply (D l)|apply D]; rewrite in_app_iff; cbn; auto.
+      * intros y Hy. apply in_app_iff in Hy as [Hy|[<-|Hy]];
+          [apply E; rewrite in_app_iff; auto| |apply E; rewrite in_app_iff; cbn; auto].
+        unfold mac_ok. cbn. rewrite Ee. exact Hlen.
     + eapply IdxInv_same_ips; eauto.
+Qed.
+
+(** The lease reserveLease hands out carries the client's address and is a
+    dynamic one. *)
+Lemma reserve_at_mac c now mac s :
+  Inv c s -> mac_len mac = 6 -> forall i, snd (reserve c now mac s) = RsAt i ->
+  exists l, nth_error (leases (fst (reserve c now mac s))) i = Some l /\ l_mac l = mac /\ l_static l = false.
+Proof.
+  intros I Hlen i. unfold reserve. destruct (next_ip c s) as [ip|].
+  - destruct (add_lease c _ s) as [s'|] eqn:Ea; cbn; [|discriminate].
+    intros E; inversion E; subst. apply add_lease_some in Ea as (-> & _).
+    eexists. split; [rewrite nth_error_app2, Nat.sub_diag by lia; reflexivity|split; reflexivity].
+  - destruct (find_expired now (leases s)) as [[j l]|] eqn:Ef; cbn; [|discriminate].
+    intros E; inversion E; subst. apply find_index_some in Ef as [Ei Ee]. apply expired_dynamic in Ee.
+    eexists. split; [apply nth_error_update_nth; eauto|]. cbn. split; auto.
+    apply copy_mac_same. pose proof I as [[_ _ _ _ E'] _ _].
+    specialize (E' l (nth_error_In _ _ Ei)). unfold mac_ok in E'. rewrite Ee in E'. congruence.
 Qed.
 
 Lemma reserve_at c now mac s i :
@@ -442,6 +524,80 @@ Proof.
     split; auto. intros _. apply in_map. eapply nth_error_In; eauto.
 Qed.
 
+(** * blocklist, allocate *)
+
+Lemma blocklist_inv c now i s : Inv c s -> Inv c (blocklist c now i s).
+Proof.
+  intros I. unfold blocklist. destruct (nth_error (leases s) i) as [l|] eqn:Ei; auto.
+  destruct (nth_error_split' _ _ _ Ei) as (l1 & l2 & EL & <-).
+  destruct I as [[A B C D E] X K]. rewrite EL in *. rewrite update_nth_split. cbn beta.
+  set (l' := Lease (l_ip l) blocklist_mac [] (l_static l) (now + c_lease c)%Z).
+  assert (Eips : ips (l1 ++ l :: l2) = ips (l1 ++ l' :: l2)) by (rewrite !ips_app; reflexivity).
+  split; cbn [leases ix disk]; auto.
+  - split.
+    + rewrite <- Eips; auto.
+    + apply NoDup_replace_cmac with (l := l); auto. rewrite in_cmacs. intros [_ H].
+      unfold l' in H. cbn [l_mac] in H. rewrite blocklist_mac_dead in H. discriminate.
+    + intros y Hy. apply in_app_iff in Hy as [Hy|[<-|Hy]]; cbn;
+        [apply C|apply (C l)|apply C]; rewrite in_app_iff; cbn; auto.
+    + intros y Hy. apply in_app_iff in Hy as [Hy|[<-|Hy]]; cbn;
+        [apply D|apply (D l)|apply D]; rewrite in_app_iff; cbn; auto.
+    + intros y Hy. apply in_app_iff in Hy as [Hy|[<-|Hy]];
+        [apply E; rewrite in_app_iff; auto| |apply E; rewrite in_app_iff; cbn; auto].
+      unfold mac_ok, l'. cbn [l_static l_mac].
+      destruct (l_static l); [apply len6_valid|]; apply blocklist_mac_len.
+  - eapply IdxInv_same_ips; [exact Eips|]. destruct X as [P Q]. split; [exact P|exact Q].
+Qed.
+
+(** Block-listing the client's own fresh lease leaves no lease of the client. *)
+Lemma blocklist_clears_mac c now i s l :
+  Inv c s -> nth_error (leases s) i = Some l ->
+  ~ In (l_mac l) (cmacs (leases (blocklist c now i s))).
+Proof.
+  intros I Ei. unfold blocklist. rewrite Ei.
+  destruct (nth_error_split' _ _ _ Ei) as (l1 & l2 & EL & <-).
+  destruct I as [[_ B _ _ _] _ _]. rewrite EL in B. cbn [leases].
+  rewrite EL, update_nth_split, cmacs_app, cmacs_cons. cbn [l_mac]. rewrite blocklist_mac_dead.
+  rewrite cmacs_app, cmacs_cons in B.
+  destruct (live (l_mac l)) eqn:Hl.
+  - apply NoDup_remove_2 in B. exact B.
+  - intros Hin. apply in_app_iff in Hin as [Hin|Hin]; apply in_cmacs in Hin as [_ Hin]; congruence.
+Qed.
+
+Lemma allocate_inv c now busy mac : forall fuel s,
+  Inv c s -> mac_len mac = 6 -> ~ In mac (cmacs (leases s)) ->
+  Inv c (fst (allocate fuel c now busy mac s)).
+Proof.
+  induction fuel as [|f IH]; intros s I Hlen Hmac; cbn [allocate]; auto.
+  pose proof (reserve_inv c now mac s I Hlen Hmac) as R.
+  pose proof (reserve_at_mac c now mac s I Hlen) as M.
+  destruct (reserve c now mac s) as [s1 r]; cbn [fst snd] in *.
+  destruct r; auto.
+  destruct (mem_ip (ip_at s1 i) busy); auto.
+  destruct (M i eq_refl) as (l & El & Elm & _).
+  apply IH; auto using blocklist_inv. rewrite <- Elm. eapply blocklist_clears_mac; eauto.
+Qed.
+
+(** The lease allocateLease hands out carries the client's address, is a
+    dynamic one and its address does not answer the probe. *)
+Lemma allocate_at c now busy mac : forall fuel s,
+  Inv c s -> mac_len mac = 6 -> ~ In mac (cmacs (leases s)) ->
+  forall i, snd (allocate fuel c now busy mac s) = RsAt i ->
+  exists l, nth_error (leases (fst (allocate fuel c now busy mac s))) i = Some l /\ l_mac l = mac /\
+            l_static l = false /\ mem_ip (l_ip l) busy = false.
+Proof.
+  induction fuel as [|f IH]; intros s I Hlen Hmac j; cbn [allocate]; [discriminate|].
+  pose proof (reserve_inv c now mac s I Hlen Hmac) as R.
+  pose proof (reserve_at_mac c now mac s I Hlen) as M.
+  destruct (reserve c now mac s) as [s1 r]; cbn [fst snd] in *.
+  destruct r; try discriminate.
+  destruct (M i eq_refl) as (l & El & Elm & Els).
+  destruct (mem_ip (ip_at s1 i) busy) eqn:Eb.
+  - apply IH; auto using blocklist_inv. rewrite <- Elm. eapply blocklist_clears_mac; eauto.
+  - cbn [fst snd]. intros E; inversion E; subst j. exists l. repeat split; auto.
+    unfold ip_at in Eb. rewrite El in Eb. exact Eb.
+Qed.
+
 (** * store, load *)
 
 Lemma insert_by_host_perm l L : Permutation (insert_by_host l L) (l :: L).
@@ -469,13 +625,27 @@ Proof. replace (ips L) with (ips (map db_lease L)) by apply ips_db. apply Permut
 Lemma store_list_macs L : Permutation (macs (store_list L)) (macs L).
 Proof. replace (macs L) with (macs (map db_lease L)) by apply macs_db. apply Permutation_map, store_list_perm. Qed.
 
+Lemma Permutation_filter_p {A} (f : A -> bool) l l' :
+  Permutation l l' -> Permutation (filter f l) (filter f l').
+Proof.
+  induction 1; cbn; auto.
+  - destruct (f x); auto.
+  - destruct (f x), (f y); auto. apply perm_swap.
+  - eapply Permutation_trans; eauto.
+Qed.
+
+Lemma store_list_cmacs L : Permutation (cmacs (store_list L)) (cmacs L).
+Proof. unfold cmacs. apply Permutation_filter_p, store_list_macs. Qed.
+
 Lemma store_list_disk c L : ListInv c L -> DiskInv c (store_list L).
 Proof.
-  intros [A B C D]. split.
+  intros [A B C D E]. split.
   - eapply Permutation_NoDup; [apply Permutation_sym, store_list_ips|]; auto.
-  - eapply Permutation_NoDup; [apply Permutation_sym, store_list_macs|]; auto.
+  - eapply Permutation_NoDup; [apply Permutation_sym, store_list_cmacs|]; auto.
   - intros l Hl Hs. eapply Permutation_in in Hl; [|apply store_list_perm].
     apply in_map_iff in Hl as (l0 & <- & Hl0). cbn in *. apply D; auto.
+  - intros l Hl. eapply Permutation_in in Hl; [|apply store_list_perm].
+    apply in_map_iff in Hl as (l0 & <- & Hl0). exact (E l0 Hl0).
 Qed.
 
 Lemma store_inv c s : Inv c s -> Inv c (store s).
@@ -485,27 +655,38 @@ Lemma reload_lease_core l : same_core l (reload_lease l).
 Proof. unfold reload_lease. destruct (negb (l_static l) && negb (is_nil (l_host l))); repeat split. Qed.
 
 Lemma load_fold_inv c : forall d s,
-  Inv c s -> NoDup (ips d) -> NoDup (macs d) ->
+  Inv c s -> NoDup (ips d) -> NoDup (cmacs d) ->
   (forall l, In l d -> l_static l = true -> l_ip l <> c_gw c) ->
-  (forall l, In l d -> ~ In (l_ip l) (ips (leases s)) /\ ~ In (l_mac l) (macs (leases s))) ->
+  (forall l, In l d -> mac_ok l) ->
+  (forall l, In l d -> ~ In (l_ip l) (ips (leases s)) /\ ~ In (l_mac l) (cmacs (leases s))) ->
   Inv c (fold_left (load_step c) d s).
 Proof.
-  induction d as [|l d IH]; intros s I Ni Nm G F; cbn; auto.
-  cbn in Ni, Nm. apply NoDup_cons_iff in Ni as [Ni1 Ni2]. apply NoDup_cons_iff in Nm as [Nm1 Nm2].
+  induction d as [|l d IH]; intros s I Ni Nm G O F; cbn [fold_left]; auto.
+  cbn in Ni. apply NoDup_cons_iff in Ni as [Ni1 Ni2].
+  rewrite cmacs_cons in Nm.
+  assert (Nm2 : NoDup (cmacs d)) by (destruct (live (l_mac l)); [inversion Nm|]; auto).
+  assert (Nm1 : live (l_mac l) = true -> ~ In (l_mac l) (cmacs d)).
+  { intros Hl. rewrite Hl in Nm. inversion Nm; auto. }
   destruct (reload_lease_core l) as (E1 & E2 & E3).
   apply IH; auto.
-  - unfold load_step. destruct (add_lease c (reload_lease l) s) as [s'|] eqn:Ea; auto.
+  - unfold load_step. destruct (valid_mac (l_mac l)); auto.
+    destruct (add_lease c (reload_lease l) s) as [s'|] eqn:Ea; auto.
     destruct (F l (or_introl eq_refl)).
     eapply add_lease_inv; eauto; rewrite <- ?E1, <- ?E2, <- ?E3; auto.
-    apply G; cbn; auto.
+    + apply G; cbn; auto.
+    + unfold mac_ok. rewrite <- E2, <- E3. apply O; cbn; auto.
   - intros; apply G; cbn; auto.
-  - intros y Hy. unfold load_step.
+  - intros; apply O; cbn; auto.
+  - intros y Hy. unfold load_step. destruct (valid_mac (l_mac l)); [|apply F; cbn; auto].
     destruct (add_lease c (reload_lease l) s) as [s'|] eqn:Ea; [|apply F; cbn; auto].
-    apply add_lease_some in Ea as (-> & _). rewrite ips_app, macs_app, !in_app_iff. cbn.
+    apply add_lease_some in Ea as (-> & _). rewrite ips_app, cmacs_app, cmacs_cons, !in_app_iff.
+    change (cmacs []) with (@nil N). change (ips [reload_lease l]) with [l_ip (reload_lease l)].
     rewrite <- E1, <- E2. destruct (F y (or_intror Hy)) as [Fa Fb].
-    split; intros [?|[Q|[]]]; auto.
-    + apply Ni1. rewrite Q. apply in_map; auto.
-    + apply Nm1. rewrite Q. apply in_map; auto.
+    split.
+    + intros [?|[Q|[]]]; auto. apply Ni1. rewrite Q. apply in_map; auto.
+    + intros [?|Hin]; auto. destruct (live (l_mac l)) eqn:Hl; [|destruct Hin].
+      destruct Hin as [Q|[]]. apply (Nm1 eq_refl). rewrite Q. apply in_cmacs.
+      split; [apply in_map; auto|rewrite <- Q; exact Hl].
 Qed.
 
 Lemma empty_inv c d : DiskInv c d -> Inv c (State [] empty_index d).
@@ -517,18 +698,40 @@ Qed.
 
 Lemma load_inv c d : DiskInv c d -> Inv c (load c d).
 Proof.
-  intros K. unfold load. pose proof K as [A B G]. apply load_fold_inv; auto.
+  intros K. unfold load. pose proof K as [A B G O]. apply load_fold_inv; auto.
   all: try solve [apply empty_inv; auto]; try solve [cbn; tauto].
 Qed.
 
 (** * Handlers *)
 
-Lemma discover_inv c now mac s : Inv c s -> Inv c (fst (discover c now mac s)).
+(** The client an operation speaks for. *)
+Definition op_mac (o : op) : option N :=
+  match o with
+  | ODiscover m | ORequest m _ _ _ _ | ODecline m _ _ | ORelease m _ _ => Some m
+  | _ => None
+  end.
+
+(** What is assumed of the operations: DHCP messages carry 6-byte hardware
+    addresses, and nobody (message or reservation) uses the all-zero address,
+    which the server keeps for block-listed addresses. *)
+Definition op_ok (o : op) : Prop :=
+  match o with
+  | ODiscover m | ORequest m _ _ _ _ | ODecline m _ _ | ORelease m _ _ =>
+      mac_len m = 6 /\ live m = true
+  | OStaticAdd m _ _ | OStaticUpdate m _ _ | OStaticRemove m _ _ => live m = true
+  | _ => True
+  end.
+
+Definition hist_ok (h : list event) : Prop := Forall (fun p : event => op_ok (snd p)) h.
+
+Lemma discover_inv c now busy mac s :
+  Inv c s -> mac_len mac = 6 -> Inv c (fst (discover c now busy mac s)).
 Proof.
-  intros I. unfold discover.
+  intros I Hlen. unfold discover.
   destruct (find_lease mac (leases s)) as [[i l]|] eqn:Ef; cbn; [apply store_inv; auto|].
-  pose proof (reserve_inv c now mac s I (find_index_none_mac _ _ Ef)) as R.
-  destruct (reserve c now mac s) as [s' r]; cbn in *.
+  pose proof (allocate_inv c now busy mac (alloc_fuel c s) s I Hlen
+                (not_in_cmacs _ _ (find_index_none_mac _ _ Ef))) as R.
+  destruct (allocate _ c now busy mac s) as [s' r]; cbn in *.
   destruct r; cbn; apply store_inv; auto.
 Qed.
 
@@ -540,9 +743,10 @@ Proof.
   destruct (l_static l); cbn; apply store_inv; auto using commit_inv.
 Qed.
 
-Lemma decline_inv c now mac reqip ci s : Inv c s -> Inv c (fst (decline c now mac reqip ci s)).
+Lemma decline_inv c now busy mac reqip ci s :
+  Inv c s -> mac_len mac = 6 -> Inv c (fst (decline c now busy mac reqip ci s)).
 Proof.
-  intros I. unfold decline.
+  intros I Hlen. unfold decline.
   destruct (find_index _ (leases s)) as [[oi old]|] eqn:Ef; cbn; [|apply store_inv; auto].
   apply find_index_some in Ef as [_ Ep]. apply andb_true_iff in Ep as [Em _]. apply N.eqb_eq in Em.
   pose proof (rm_dynamic_lease_inv c (l_mac old) (l_ip old) (l_host old) s I) as I1.
@@ -550,8 +754,8 @@ Proof.
   destruct (rm_dynamic_lease c (l_mac old) (l_ip old) (l_host old) s) as [s1 e]; cbn in *.
   destruct e; cbn; [apply store_inv; auto|].
   destruct (C1 eq_refl) as [Cm _]. rewrite Em in Cm.
-  pose proof (reserve_inv c now mac s1 I1 Cm) as R.
-  destruct (reserve c now mac s1) as [s2 r]; cbn in *.
+  pose proof (allocate_inv c now busy mac (alloc_fuel c s1) s1 I1 Hlen (not_in_cmacs _ _ Cm)) as R.
+  destruct (allocate _ c now busy mac s1) as [s2 r]; cbn in *.
   destruct r; cbn; apply store_inv; auto using commit_inv.
 Qed.
 
@@ -568,14 +772,15 @@ Lemma static_add_inv c mac ip host s : Inv c s -> Inv c (fst (static_add c mac i
 Proof.
   intros I. unfold static_add.
   destruct (N.eqb_spec ip (c_gw c)) as [|Hgw]; cbn; auto.
+  destruct (valid_mac mac) eqn:Ev; cbn; auto.
   destruct (if is_nil host then Some [] else _) as [h|]; cbn; auto.
   pose proof (rm_dynamic_lease_inv c mac ip h s I) as I1.
   pose proof (rm_dynamic_lease_clears c mac ip h s) as C1.
   destruct (rm_dynamic_lease c mac ip h s) as [s1 e]; cbn in *.
   destruct e; cbn; [apply store_inv; auto|].
-  destruct (C1 eq_refl) as [Cm Ci].
+  destruct (C1 eq_refl) as [Cm Ci]. apply not_in_cmacs in Cm.
   destruct (add_lease c _ s1) as [s2|] eqn:Ea; cbn; apply store_inv; auto.
-  eapply add_lease_inv; eauto.
+  eapply add_lease_inv; eauto; exact Ev.
 Qed.
 
 Lemma lease_by_ip_some ip L d : lease_by_ip ip L = Some d -> In d L /\ l_ip d = ip.
@@ -626,9 +831,10 @@ Proof.
   apply rm_lease_by_index_inv; auto.
 Qed.
 
-Lemma static_update_inv c mac ip host s : Inv c s -> Inv c (fst (static_update c mac ip host s)).
+Lemma static_update_inv c mac ip host s :
+  Inv c s -> live mac = true -> Inv c (fst (static_update c mac ip host s)).
 Proof.
-  intros I. unfold static_update.
+  intros I Hlive. unfold static_update.
   destruct (find_lease mac (leases s)) as [[fi found]|] eqn:Ef; cbn; auto.
   destruct (validate_static c mac ip host s) as [h|] eqn:Ev; cbn; auto.
   destruct (rm_lease c _ _ _ s) as [s1|] eqn:Er; cbn; auto.
@@ -640,35 +846,41 @@ Proof.
   apply rm_lease_some in Er as [[_ E0]|(l1 & l & l2 & EL & Elm & _ & _ & EL1)].
   { rewrite E0 in Efi. destruct fi; discriminate. }
   assert (Nm : ~ In mac (macs (l1 ++ l2))).
-  { pose proof I as [[_ B _ _] _ _]. rewrite EL, macs_app in B. cbn in B.
-    apply NoDup_remove_2 in B. rewrite macs_app, <- Efm, <- Elm. exact B. }
-  eapply add_lease_inv; eauto; cbn; rewrite ?EL1; auto.
+  { pose proof I as [[_ B _ _ _] _ _]. rewrite EL, cmacs_app, cmacs_cons in B.
+    assert (Elive : live (l_mac l) = true) by congruence. rewrite Elive in B.
+    apply NoDup_remove_2 in B. intros Hin. apply B. rewrite <- cmacs_app. apply in_cmacs.
+    split; [replace (l_mac l) with mac by congruence; exact Hin|exact Elive]. }
+  apply (add_lease_inv c _ s1 s2 I1 Ea); cbn [l_ip l_mac l_static]; rewrite ?EL1;
+    [|apply not_in_cmacs, Nm|intros _; exact Hgw|
+     unfold mac_ok; cbn [l_static l_mac]; rewrite <- Efm; apply mac_ok_valid;
+     pose proof I as [[_ _ _ _ E] _ _]; apply E; eapply nth_error_In; eauto].
   destruct Hip as [Hip|(d & Hd & Hdi & Hdm)].
   - intros Hin. destruct I as [_ [A _] _].
     assert (iidx (ix s) ip = true); [|congruence].
     apply A. rewrite EL. eapply Thin_in_ip; [apply Thin_remove|exact Hin].
   - rewrite EL in Hd. apply in_app_iff in Hd as [Hd|[<-|Hd]].
     + exfalso. apply Nm. rewrite macs_app, in_app_iff. left. rewrite <- Hdm. apply in_map; auto.
-    + destruct I as [[A _ _ _] _ _]. rewrite EL, ips_app in A. cbn in A.
+    + destruct I as [[A _ _ _ _] _ _]. rewrite EL, ips_app in A. cbn in A.
       apply NoDup_remove_2 in A. rewrite ips_app, <- Hdi. exact A.
     + exfalso. apply Nm. rewrite macs_app, in_app_iff. right. rewrite <- Hdm. apply in_map; auto.
 Qed.
 
 Lemma static_remove_inv c mac ip host s : Inv c s -> Inv c (fst (static_remove c mac ip host s)).
 Proof.
-  intros I. unfold static_remove. destruct (rm_lease c ip mac host s) as [s1|] eqn:Er; cbn; auto.
+  intros I. unfold static_remove. destruct (valid_mac mac); cbn; auto.
+  destruct (rm_lease c ip mac host s) as [s1|] eqn:Er; cbn; auto.
   apply store_inv. eapply rm_lease_inv; eauto.
 Qed.
 
 Lemma restart_inv c s : Inv c s -> Inv c (restart c s).
 Proof. intros [_ _ K]. apply load_inv; auto. Qed.
 
-Theorem step_inv c s now o : Inv c s -> Inv c (fst (step c s now o)).
+Theorem step_inv c s now busy o : Inv c s -> op_ok o -> Inv c (fst (step c s now busy o)).
 Proof.
-  intros I. destruct o; cbn [step].
-  - apply discover_inv; auto.
+  intros I Ho. destruct o; cbn [step]; cbn in Ho.
+  - apply discover_inv; tauto.
   - apply request_inv; auto.
-  - apply decline_inv; auto.
+  - apply decline_inv; tauto.
   - apply release_inv; auto.
   - apply static_add_inv; auto.
   - apply static_update_inv; auto.
@@ -677,10 +889,10 @@ Proof.
   - apply restart_inv; auto.
 Qed.
 
-Theorem run_inv c h : forall s, Inv c s -> Inv c (run c h s).
+Theorem run_inv c h : forall s, hist_ok h -> Inv c s -> Inv c (run c h s).
 Proof.
-  unfold run. induction h as [|[now o] h IH]; intros s I; cbn; auto.
-  apply IH. apply step_inv; auto.
+  unfold run. induction h as [|[[now busy] o] h IH]; intros s Hh I; cbn; auto.
+  inversion Hh; subst. apply IH; auto. apply step_inv; auto.
 Qed.
 
 Lemma empty_state_inv c : Inv c empty_state.
@@ -688,8 +900,8 @@ Proof. apply empty_inv. split; cbn; try constructor; tauto. Qed.
 
 (** Every state reachable from the empty table by any history, for any
     configuration and any clock readings. *)
-Theorem inv_reachable c h : Inv c (run c h empty_state).
-Proof. apply run_inv, empty_state_inv. Qed.
+Theorem inv_reachable c h : hist_ok h -> Inv c (run c h empty_state).
+Proof. intros Hh. apply run_inv; auto. apply empty_state_inv. Qed.
 
 (** * The hostname index *)
 
@@ -833,11 +1045,11 @@ Qed.
 
 Lemma add_lease_full c l s s' :
   FullInv c s -> add_lease c l s = Some s' ->
-  ~ In (l_ip l) (ips (leases s)) -> ~ In (l_mac l) (macs (leases s)) ->
-  (l_static l = true -> l_ip l <> c_gw c) ->
+  ~ In (l_ip l) (ips (leases s)) -> ~ In (l_mac l) (cmacs (leases s)) ->
+  (l_static l = true -> l_ip l <> c_gw c) -> mac_ok l ->
   FullInv c s'.
 Proof.
-  intros [I H] Ea Hi Hm Hg. split; [eapply add_lease_inv; eauto|].
+  intros [I H] Ea Hi Hm Hg Hok. split; [eapply add_lease_inv; eauto|].
   destruct (add_lease_hidx _ _ _ _ Ea) as [Hc ->].
   apply add_lease_some in Ea as (-> & _). rewrite names_app. cbn.
   apply HInv_add; auto.
@@ -900,13 +1112,14 @@ Proof.
 Qed.
 
 Lemma reserve_full c now mac s :
-  FullInv c s -> ~ In mac (macs (leases s)) -> FullInv c (fst (reserve c now mac s)).
+  FullInv c s -> mac_len mac = 6 -> ~ In mac (cmacs (leases s)) ->
+  FullInv c (fst (reserve c now mac s)).
 Proof.
-  intros F Hmac. pose proof (reserve_inv c now mac s (fi_inv _ _ F) Hmac) as R.
+  intros F Hlen Hmac. pose proof (reserve_inv c now mac s (fi_inv _ _ F) Hlen Hmac) as R.
   unfold reserve in *.
   destruct (next_ip c s) as [ip|] eqn:En.
   - destruct (add_lease c _ s) as [s'|] eqn:Ea; cbn; auto.
-    eapply add_lease_full; eauto; cbn; [|discriminate].
+    eapply add_lease_full; eauto; try (cbn; discriminate); try exact Hlen.
     eapply next_ip_fresh; eauto. apply F.
   - destruct (find_expired now (leases s)) as [[i l]|] eqn:Ef; cbn in *; auto.
     split; auto. cbn. rewrite names_update_nth; [apply F|]. intros; split; reflexivity.
@@ -927,45 +1140,85 @@ Proof.
     destruct (hidx (ix s) (gen_hostname (l_ip l))) eqn:Eg; cbn [is_some]; auto.
 Qed.
 
+Lemma blocklist_full c now i s : FullInv c s -> FullInv c (blocklist c now i s).
+Proof.
+  intros [I H]. split; [apply blocklist_inv; auto|].
+  unfold blocklist. destruct (nth_error (leases s) i) as [l|] eqn:E; auto.
+  destruct (nth_error_split' _ _ _ E) as (l1 & l2 & EL & <-). cbn [leases ix hidx].
+  rewrite EL, update_nth_split, names_app. cbn [names map l_ip l_host].
+  rewrite EL, names_app in H. cbn [names map] in H.
+  fold (names l2) in *.
+  apply (HInv_rename _ _ _ _ _ [] H).
+  - apply names_split_nodup. rewrite <- EL. apply I.
+  - auto.
+Qed.
+
+Lemma allocate_full c now busy mac : forall fuel s,
+  FullInv c s -> mac_len mac = 6 -> ~ In mac (cmacs (leases s)) ->
+  FullInv c (fst (allocate fuel c now busy mac s)).
+Proof.
+  induction fuel as [|f IH]; intros s F Hlen Hmac; cbn [allocate]; auto.
+  pose proof (reserve_full c now mac s F Hlen Hmac) as R.
+  pose proof (reserve_at_mac c now mac s (fi_inv _ _ F) Hlen) as M.
+  destruct (reserve c now mac s) as [s1 r]; cbn [fst snd] in *.
+  destruct r; auto.
+  destruct (mem_ip (ip_at s1 i) busy); auto.
+  destruct (M i eq_refl) as (l & El & Elm & _).
+  apply IH; auto using blocklist_full. rewrite <- Elm. eapply blocklist_clears_mac; eauto. apply R.
+Qed.
+
 Lemma store_full c s : FullInv c s -> FullInv c (store s).
 Proof. intros [I H]. split; [apply store_inv; auto|exact H]. Qed.
 
 Lemma load_fold_full c : forall d s,
-  FullInv c s -> NoDup (ips d) -> NoDup (macs d) ->
+  FullInv c s -> NoDup (ips d) -> NoDup (cmacs d) ->
   (forall l, In l d -> l_static l = true -> l_ip l <> c_gw c) ->
-  (forall l, In l d -> ~ In (l_ip l) (ips (leases s)) /\ ~ In (l_mac l) (macs (leases s))) ->
+  (forall l, In l d -> mac_ok l) ->
+  (forall l, In l d -> ~ In (l_ip l) (ips (leases s)) /\ ~ In (l_mac l) (cmacs (leases s))) ->
   FullInv c (fold_left (load_step c) d s).
 Proof.
-  induction d as [|l d IH]; intros s I Ni Nm G F; cbn; auto.
-  cbn in Ni, Nm. apply NoDup_cons_iff in Ni as [Ni1 Ni2]. apply NoDup_cons_iff in Nm as [Nm1 Nm2].
+  induction d as [|l d IH]; intros s I Ni Nm G O F; cbn [fold_left]; auto.
+  cbn in Ni. apply NoDup_cons_iff in Ni as [Ni1 Ni2].
+  rewrite cmacs_cons in Nm.
+  assert (Nm2 : NoDup (cmacs d)) by (destruct (live (l_mac l)); [inversion Nm|]; auto).
+  assert (Nm1 : live (l_mac l) = true -> ~ In (l_mac l) (cmacs d)).
+  { intros Hl. rewrite Hl in Nm. inversion Nm; auto. }
   destruct (reload_lease_core l) as (E1 & E2 & E3).
   apply IH; auto.
-  - unfold load_step. destruct (add_lease c (reload_lease l) s) as [s'|] eqn:Ea; auto.
+  - unfold load_step. destruct (valid_mac (l_mac l)); auto.
+    destruct (add_lease c (reload_lease l) s) as [s'|] eqn:Ea; auto.
     destruct (F l (or_introl eq_refl)).
     eapply add_lease_full; eauto; rewrite <- ?E1, <- ?E2, <- ?E3; auto.
-    apply G; cbn; auto.
+    + apply G; cbn; auto.
+    + unfold mac_ok. rewrite <- E2, <- E3. apply O; cbn; auto.
   - intros; apply G; cbn; auto.
-  - intros y Hy. unfold load_step.
+  - intros; apply O; cbn; auto.
+  - intros y Hy. unfold load_step. destruct (valid_mac (l_mac l)); [|apply F; cbn; auto].
     destruct (add_lease c (reload_lease l) s) as [s'|] eqn:Ea; [|apply F; cbn; auto].
-    apply add_lease_some in Ea as (-> & _). rewrite ips_app, macs_app, !in_app_iff. cbn.
+    apply add_lease_some in Ea as (-> & _). rewrite ips_app, cmacs_app, cmacs_cons, !in_app_iff.
+    change (cmacs []) with (@nil N). change (ips [reload_lease l]) with [l_ip (reload_lease l)].
     rewrite <- E1, <- E2. destruct (F y (or_intror Hy)) as [Fa Fb].
-    split; intros [?|[Q|[]]]; auto.
-    + apply Ni1. rewrite Q. apply in_map; auto.
-    + apply Nm1. rewrite Q. apply in_map; auto.
+    split.
+    + intros [?|[Q|[]]]; auto. apply Ni1. rewrite Q. apply in_map; auto.
+    + intros [?|Hin]; auto. destruct (live (l_mac l)) eqn:Hl; [|destruct Hin].
+      destruct Hin as [Q|[]]. apply (Nm1 eq_refl). rewrite Q. apply in_cmacs.
+      split; [apply in_map; auto|rewrite <- Q; exact Hl].
 Qed.
 
 Lemma load_full c d : DiskInv c d -> FullInv c (load c d).
 Proof.
-  intros K. unfold load. pose proof K as [A B G]. apply load_fold_full; auto.
+  intros K. unfold load. pose proof K as [A B G O]. apply load_fold_full; auto.
   split; [apply empty_inv; auto|]. unfold HInv; cbn. intros h ip. split; [discriminate|intros [_ []]].
 Qed.
 
-Lemma discover_full c now mac s : FullInv c s -> FullInv c (fst (discover c now mac s)).
+Lemma discover_full c now busy mac s :
+  FullInv c s -> mac_len mac = 6 -> FullInv c (fst (discover c now busy mac s)).
 Proof.
-  intros I. unfold discover.
+  intros I Hlen. unfold discover.
   destruct (find_lease mac (leases s)) as [[i l]|] eqn:Ef; cbn; [apply store_full; auto|].
-  pose proof (reserve_full c now mac s I (find_index_none_mac _ _ Ef)) as R.
-  destruct (reserve c now mac s) as [s' r]; cbn in *.
+  pose proof (allocate_full c now busy mac (alloc_fuel c s) s I Hlen
+                (not_in_cmacs _ _ (find_index_none_mac _ _ Ef))) as R.
+  destruct (allocate _ c now busy mac s) as [s' r]; cbn in *.
   destruct r; cbn; apply store_full; auto.
 Qed.
 
@@ -977,9 +1230,10 @@ Proof.
   destruct (l_static l); cbn; apply store_full; auto using commit_full.
 Qed.
 
-Lemma decline_full c now mac reqip ci s : FullInv c s -> FullInv c (fst (decline c now mac reqip ci s)).
+Lemma decline_full c now busy mac reqip ci s :
+  FullInv c s -> mac_len mac = 6 -> FullInv c (fst (decline c now busy mac reqip ci s)).
 Proof.
-  intros I. unfold decline.
+  intros I Hlen. unfold decline.
   destruct (find_index _ (leases s)) as [[oi old]|] eqn:Ef; cbn; [|apply store_full; auto].
   apply find_index_some in Ef as [_ Ep]. apply andb_true_iff in Ep as [Em _]. apply N.eqb_eq in Em.
   pose proof (rm_dynamic_lease_full c (l_mac old) (l_ip old) (l_host old) s I) as I1.
@@ -987,8 +1241,8 @@ Proof.
   destruct (rm_dynamic_lease c (l_mac old) (l_ip old) (l_host old) s) as [s1 e]; cbn in *.
   destruct e; cbn; [apply store_full; auto|].
   destruct (C1 eq_refl) as [Cm _]. rewrite Em in Cm.
-  pose proof (reserve_full c now mac s1 I1 Cm) as R.
-  destruct (reserve c now mac s1) as [s2 r]; cbn in *.
+  pose proof (allocate_full c now busy mac (alloc_fuel c s1) s1 I1 Hlen (not_in_cmacs _ _ Cm)) as R.
+  destruct (allocate _ c now busy mac s1) as [s2 r]; cbn in *.
   destruct r; cbn; apply store_full; auto using commit_full.
 Qed.
 
@@ -1005,14 +1259,15 @@ Lemma static_add_full c mac ip host s : FullInv c s -> FullInv c (fst (static_ad
 Proof.
   intros I. unfold static_add.
   destruct (N.eqb_spec ip (c_gw c)) as [|Hgw]; cbn; auto.
+  destruct (valid_mac mac) eqn:Ev; cbn; auto.
   destruct (if is_nil host then Some [] else _) as [h|]; cbn; auto.
   pose proof (rm_dynamic_lease_full c mac ip h s I) as I1.
   pose proof (rm_dynamic_lease_clears c mac ip h s) as C1.
   destruct (rm_dynamic_lease c mac ip h s) as [s1 e]; cbn in *.
   destruct e; cbn; [apply store_full; auto|].
-  destruct (C1 eq_refl) as [Cm Ci].
+  destruct (C1 eq_refl) as [Cm Ci]. apply not_in_cmacs in Cm.
   destruct (add_lease c _ s1) as [s2|] eqn:Ea; cbn; apply store_full; auto.
-  eapply add_lease_full; eauto.
+  eapply add_lease_full; eauto; exact Ev.
 Qed.
 
 Lemma rm_lease_full c ip mac host s s1 : FullInv c s -> rm_lease c ip mac host s = Some s1 -> FullInv c s1.
@@ -1021,9 +1276,10 @@ Proof.
   apply rm_lease_by_index_full; auto.
 Qed.
 
-Lemma static_update_full c mac ip host s : FullInv c s -> FullInv c (fst (static_update c mac ip host s)).
+Lemma static_update_full c mac ip host s :
+  FullInv c s -> live mac = true -> FullInv c (fst (static_update c mac ip host s)).
 Proof.
-  intros F. pose proof (static_update_inv c mac ip host s (fi_inv _ _ F)) as SI.
+  intros F Hlive. pose proof (static_update_inv c mac ip host s (fi_inv _ _ F) Hlive) as SI.
   split; auto. unfold static_update in *.
   destruct (find_lease mac (leases s)) as [[fi found]|] eqn:Ef; cbn; [|apply F].
   destruct (validate_static c mac ip host s) as [h|] eqn:Ev; cbn; [|apply F].
@@ -1037,16 +1293,17 @@ Qed.
 
 Lemma static_remove_full c mac ip host s : FullInv c s -> FullInv c (fst (static_remove c mac ip host s)).
 Proof.
-  intros I. unfold static_remove. destruct (rm_lease c ip mac host s) as [s1|] eqn:Er; cbn; auto.
+  intros I. unfold static_remove. destruct (valid_mac mac); cbn; auto.
+  destruct (rm_lease c ip mac host s) as [s1|] eqn:Er; cbn; auto.
   apply store_full. eapply rm_lease_full; eauto.
 Qed.
 
-Theorem step_full c s now o : FullInv c s -> FullInv c (fst (step c s now o)).
+Theorem step_full c s now busy o : FullInv c s -> op_ok o -> FullInv c (fst (step c s now busy o)).
 Proof.
-  intros I. destruct o; cbn [step].
-  - apply discover_full; auto.
+  intros I Ho. destruct o; cbn [step]; cbn in Ho.
+  - apply discover_full; tauto.
   - apply request_full; auto.
-  - apply decline_full; auto.
+  - apply decline_full; tauto.
   - apply release_full; auto.
   - apply static_add_full; auto.
   - apply static_update_full; auto.
@@ -1055,17 +1312,17 @@ Proof.
   - apply load_full. apply I.
 Qed.
 
-Theorem run_full c h : forall s, FullInv c s -> FullInv c (run c h s).
+Theorem run_full c h : forall s, hist_ok h -> FullInv c s -> FullInv c (run c h s).
 Proof.
-  unfold run. induction h as [|[now o] h IH]; intros s I; cbn; auto.
-  apply IH. apply step_full; auto.
+  unfold run. induction h as [|[[now busy] o] h IH]; intros s Hh I; cbn; auto.
+  inversion Hh; subst. apply IH; auto. apply step_full; auto.
 Qed.
 
 Lemma empty_state_full c : FullInv c empty_state.
 Proof. split; [apply empty_state_inv|]. unfold HInv; cbn. intros h ip. split; [discriminate|intros [_ []]]. Qed.
 
-Theorem full_inv_reachable c h : FullInv c (run c h empty_state).
-Proof. apply run_full, empty_state_full. Qed.
+Theorem full_inv_reachable c h : hist_ok h -> FullInv c (run c h empty_state).
+Proof. intros Hh. apply run_full; auto. apply empty_state_full. Qed.
 
 (** * Corollaries *)
 
@@ -1081,13 +1338,29 @@ Qed.
 
 (** One holder per address, one lease per client; hence also among the
     leases the API reports as active at any instant. *)
+Lemma cmacs_inj L a b :
+  NoDup (cmacs L) -> In a L -> In b L -> l_mac a = l_mac b -> live (l_mac a) = true -> a = b.
+Proof.
+  induction L as [|x L IH]; cbn [In]; intros N Ha Hb E Hl; [tauto|].
+  rewrite cmacs_cons in N.
+  destruct Ha as [<-|Ha], Hb as [<-|Hb]; auto.
+  - exfalso. rewrite Hl in N. apply NoDup_cons_iff in N as [N1 _]. apply N1. rewrite E.
+    apply in_cmacs. split; [apply in_map; auto|congruence].
+  - exfalso. assert (Hx : live (l_mac x) = true) by congruence. rewrite Hx in N.
+    apply NoDup_cons_iff in N as [N1 _]. apply N1. rewrite <- E.
+    apply in_cmacs. split; [apply in_map; auto|auto].
+  - apply IH; auto. destruct (live (l_mac x)); auto. inversion N; auto.
+Qed.
+
+(** The all-zero hardware address marks block-listed addresses and is no
+    client; every other hardware address has at most one lease. *)
 Lemma one_holder c s : Inv c s ->
   forall l1 l2, In l1 (leases s) -> In l2 (leases s) ->
-  (l_ip l1 = l_ip l2 \/ l_mac l1 = l_mac l2) -> l1 = l2.
+  (l_ip l1 = l_ip l2 \/ (l_mac l1 = l_mac l2 /\ live (l_mac l1) = true)) -> l1 = l2.
 Proof.
-  intros [[A B _ _] _ _] l1 l2 H1 H2 [E|E].
+  intros [[A B _ _ _] _ _] l1 l2 H1 H2 [E|[E Hl]].
   - eapply (NoDup_map_inj l_ip); eauto.
-  - eapply (NoDup_map_inj l_mac); eauto.
+  - eapply cmacs_inj; eauto.
 Qed.
 
 Lemma active_in now s l : In l (active now s) -> In l (leases s).
@@ -1099,38 +1372,10 @@ Lemma dynamic_addresses c s : valid_conf c -> Inv c s ->
   in_pool c (l_ip l) = true /\ l_ip l <> c_gw c /\
   (forall r, In r (leases s) -> l_static r = true -> l_ip r <> l_ip l).
 Proof.
-  intros (_ & Hgw & _) I l Hl Hs. pose proof I as [[A B C D] _ _].
+  intros (_ & Hgw & _) I l Hl Hs. pose proof I as [[A B C D _] _ _].
   split; [auto|split].
   - intros E. rewrite <- E in Hgw. rewrite C in Hgw; auto. discriminate.
   - intros r Hr Hrs E. assert (r = l) by (eapply one_holder; eauto). congruence.
-Qed.
-
-(** The client an operation speaks for. *)
-Definition op_mac (o : op) : option N :=
-  match o with
-  | ODiscover m | ORequest m _ _ _ _ | ODecline m _ _ | ORelease m _ _ => Some m
-  | _ => None
-  end.
-
-Lemma nth_error_update_nth {A} i (f : A -> A) L a :
-  nth_error L i = Some a -> nth_error (update_nth i f L) i = Some (f a).
-Proof.
-  revert i; induction L as [|x L IH]; destruct i; cbn; intros H; try discriminate.
-  - inversion H; auto.
-  - auto.
-Qed.
-
-Lemma reserve_at_mac c now mac s i :
-  snd (reserve c now mac s) = RsAt i ->
-  exists l, nth_error (leases (fst (reserve c now mac s))) i = Some l /\ l_mac l = mac.
-Proof.
-  unfold reserve. destruct (next_ip c s) as [ip|].
-  - destruct (add_lease c _ s) as [s'|] eqn:Ea; cbn; [|discriminate].
-    intros E; inversion E; subst. apply add_lease_some in Ea as (-> & _).
-    eexists. split; [rewrite nth_error_app2, Nat.sub_diag by lia; reflexivity|reflexivity].
-  - destruct (find_expired now (leases s)) as [[j l]|] eqn:Ef; cbn; [|discriminate].
-    intros E; inversion E; subst. apply find_index_some in Ef as [Ei _].
-    eexists. split; [apply nth_error_update_nth; eauto|reflexivity].
 Qed.
 
 Lemma commit_nth c now i host s l :
@@ -1143,20 +1388,23 @@ Proof.
 Qed.
 
 (** Whoever is answered with an address holds the lease for it afterwards. *)
-Lemma reply_lease c s now o s' mt yi mac :
-  step c s now o = (s', ROk mt yi) -> yi <> 0 -> op_mac o = Some mac ->
+Lemma reply_lease c s now busy o s' mt yi mac :
+  Inv c s -> op_ok o ->
+  step c s now busy o = (s', ROk mt yi) -> yi <> 0 -> op_mac o = Some mac ->
   exists l, In l (leases s') /\ l_mac l = mac /\ l_ip l = yi.
 Proof.
-  destruct o; cbn [step op_mac]; intros H Hyi Em; inversion Em; subst; clear Em.
+  intros I Ho.
+  destruct o; cbn [step op_mac]; cbn in Ho; intros H Hyi Em; inversion Em; subst; clear Em.
   - (* discover *)
     unfold discover in H.
     destruct (find_lease mac (leases s)) as [[i l]|] eqn:Ef.
     + inversion H; subst. apply find_index_some in Ef as [Ei Ep]. cbn in Ep. apply N.eqb_eq in Ep.
       exists l. cbn. split; [eapply nth_error_In; eauto|auto].
-    + pose proof (reserve_at_mac c now mac s) as R.
-      destruct (reserve c now mac s) as [s1 r]; cbn in *.
+    + pose proof (allocate_at c now busy mac (alloc_fuel c s) s I (proj1 Ho)
+                    (not_in_cmacs _ _ (find_index_none_mac _ _ Ef))) as R.
+      destruct (allocate _ c now busy mac s) as [s1 r]; cbn in *.
       destruct r; inversion H; subst.
-      destruct (R _ eq_refl) as (l & El & Elm). exists l. cbn.
+      destruct (R _ eq_refl) as (l & El & Elm & _). exists l. cbn.
       split; [eapply nth_error_In; eauto|]. split; auto. unfold ip_at. rewrite El. reflexivity.
   - (* request *)
     unfold request in H.
@@ -1188,13 +1436,17 @@ Proof.
       exists l'. split; [eapply nth_error_In; eauto|]. split; congruence.
   - (* decline *)
     unfold decline in H.
-    destruct (find_index _ (leases s)) as [[oi old]|]; [|inversion H; subst; congruence].
+    destruct (find_index _ (leases s)) as [[oi old]|] eqn:Ef; [|inversion H; subst; congruence].
+    apply find_index_some in Ef as [_ Ep]. apply andb_true_iff in Ep as [Em _]. apply N.eqb_eq in Em.
+    pose proof (rm_dynamic_lease_inv c (l_mac old) (l_ip old) (l_host old) s I) as I1.
+    pose proof (rm_dynamic_lease_clears c (l_mac old) (l_ip old) (l_host old) s) as C1.
     destruct (rm_dynamic_lease c (l_mac old) (l_ip old) (l_host old) s) as [s1 e].
-    destruct e; [inversion H|].
-    pose proof (reserve_at_mac c now mac s1) as R.
-    destruct (reserve c now mac s1) as [s2 r]; cbn in *.
+    destruct e; [inversion H|]. cbn [fst snd] in *.
+    destruct (C1 eq_refl) as [Cm _]. rewrite Em in Cm.
+    pose proof (allocate_at c now busy mac (alloc_fuel c s1) s1 I1 (proj1 Ho) (not_in_cmacs _ _ Cm)) as R.
+    destruct (allocate _ c now busy mac s1) as [s2 r]; cbn in *.
     destruct r; inversion H; subst; [congruence|].
-    destruct (R _ eq_refl) as (l & El & Elm).
+    destruct (R _ eq_refl) as (l & El & Elm & _).
     destruct (commit_nth c now i (l_host old) s2 l El) as (l' & El' & E1 & E2).
     exists l'. cbn. split; [eapply nth_error_In; eauto|]. split; [congruence|].
     unfold ip_at. rewrite El. auto.
@@ -1206,14 +1458,20 @@ Proof.
 Qed.
 
 (** A client with a reservation is only ever answered with the reserved address. *)
-Theorem reservation_respected c s now o s' mt yi mac r :
-  Inv c s -> step c s now o = (s', ROk mt yi) -> yi <> 0 -> op_mac o = Some mac ->
+Lemma op_mac_live o mac : op_ok o -> op_mac o = Some mac -> live mac = true.
+Proof. destruct o; cbn; intros H E; inversion E; subst; tauto. Qed.
+
+Theorem reservation_respected c s now busy o s' mt yi mac r :
+  Inv c s -> op_ok o ->
+  step c s now busy o = (s', ROk mt yi) -> yi <> 0 -> op_mac o = Some mac ->
   In r (leases s') -> l_static r = true -> l_mac r = mac -> yi = l_ip r.
 Proof.
-  intros I H Hyi Em Hr _ Hrm.
-  destruct (reply_lease _ _ _ _ _ _ _ _ H Hyi Em) as (l & Hl & Elm & <-).
-  assert (I' : Inv c s') by (replace s' with (fst (step c s now o)) by (rewrite H; auto); apply step_inv; auto).
-  f_equal. eapply one_holder; eauto. right; congruence.
+  intros I Ho H Hyi Em Hr _ Hrm.
+  destruct (reply_lease _ _ _ _ _ _ _ _ _ I Ho H Hyi Em) as (l & Hl & Elm & <-).
+  assert (I' : Inv c s')
+    by (replace s' with (fst (step c s now busy o)) by (rewrite H; auto); apply step_inv; auto).
+  f_equal. eapply one_holder; eauto. right. split; [congruence|].
+  rewrite Elm. eapply op_mac_live; eauto.
 Qed.
 
 (** * Liveness of DISCOVER *)
@@ -1248,29 +1506,137 @@ Qed.
 Lemma ip_at_snoc L l x d : ip_at (State (L ++ [l]) x d) (length L) = l_ip l.
 Proof. unfold ip_at. cbn [leases]. rewrite nth_error_app2, Nat.sub_diag by lia. reflexivity. Qed.
 
+Lemma next_ip_spec c s ip1 :
+  next_ip c s = Some ip1 ->
+  exists o, ip1 = c_start c + o /\ In o (pool_offsets c) /\ offs (ix s) o = false.
+Proof.
+  unfold next_ip. destruct (find _ (pool_offsets c)) as [o|] eqn:F; [|discriminate].
+  cbn. intros E; inversion E; subst. apply find_some in F as [Hin Ho].
+  apply negb_true_iff in Ho. eauto.
+Qed.
+
+Lemma reserve_fresh c now mac s ip1 :
+  next_ip c s = Some ip1 -> in_pool c ip1 = true ->
+  reserve c now mac s =
+    (State (leases s ++ [Lease ip1 mac [] false exp_zero])
+           (Index (hidx (ix s)) (upd (iidx (ix s)) ip1 true) (set_off c ip1 true (offs (ix s))))
+           (disk s),
+     RsAt (length (leases s))).
+Proof.
+  intros En Hp. unfold reserve, add_lease. rewrite En.
+  cbn [l_static l_ip l_host is_nil negb andb]. rewrite Hp. cbn [negb]. reflexivity.
+Qed.
+
+Lemma blocklist_ips c now i s : ips (leases (blocklist c now i s)) = ips (leases s).
+Proof.
+  unfold blocklist. destruct (nth_error (leases s) i); auto. cbn [leases].
+  apply ips_update_nth. reflexivity.
+Qed.
+
+Lemma blocklist_offs c now i s : offs (ix (blocklist c now i s)) = offs (ix s).
+Proof. unfold blocklist. destruct (nth_error (leases s) i); reflexivity. Qed.
+
+Definition free_offs (c : conf) (s : state) : list N :=
+  filter (fun o => negb (offs (ix s) o)) (pool_offsets c).
+
+Lemma filter_len_le {A} (p q : A -> bool) l :
+  (forall x, q x = true -> p x = true) -> (length (filter q l) <= length (filter p l))%nat.
+Proof.
+  intros Hqp. induction l as [|y l IH]; cbn; auto.
+  destruct (q y) eqn:Eq; [rewrite (Hqp _ Eq); cbn; lia|destruct (p y); cbn; lia].
+Qed.
+
+Lemma filter_len_lt {A} (p q : A -> bool) l a :
+  (forall x, q x = true -> p x = true) -> In a l -> p a = true -> q a = false ->
+  (length (filter q l) < length (filter p l))%nat.
+Proof.
+  intros Hqp. induction l as [|x l IH]; cbn [In]; intros Hin Hp Hq; [tauto|].
+  pose proof (filter_len_le p q l Hqp) as Hle. cbn [filter].
+  destruct Hin as [->|Hin].
+  - rewrite Hp, Hq. cbn. lia.
+  - specialize (IH Hin Hp Hq).
+    destruct (q x) eqn:Eq; [rewrite (Hqp _ Eq); cbn; lia|destruct (p x); cbn; lia].
+Qed.
+
+Lemma mem_ip_neq a b busy : mem_ip a busy = true -> mem_ip b busy = false -> a <> b.
+Proof. intros Ha Hb E. congruence. Qed.
+
+(** While some pool address is in no lease and does not answer the probe,
+    allocateLease hands out a pool address that was in no lease. *)
+Lemma allocate_live c now busy mac ip : forall fuel s,
+  Inv c s -> mac_len mac = 6 -> ~ In mac (cmacs (leases s)) ->
+  in_pool c ip = true -> ~ In ip (ips (leases s)) -> mem_ip ip busy = false ->
+  (length (free_offs c s) < fuel)%nat ->
+  exists i, snd (allocate fuel c now busy mac s) = RsAt i /\
+    in_pool c (ip_at (fst (allocate fuel c now busy mac s)) i) = true /\
+    ~ In (ip_at (fst (allocate fuel c now busy mac s)) i) (ips (leases s)).
+Proof.
+  induction fuel as [|f IH]; intros s I Hlen Hmac Hp Hn Hb Hf; [lia|].
+  pose proof I as [_ X _].
+  destruct (next_ip_some c s ip X Hp Hn) as (ip1 & En & Hp1).
+  pose proof (next_ip_fresh c s ip1 X En) as Hf1.
+  pose proof (reserve_inv c now mac s I Hlen Hmac) as R.
+  pose proof (reserve_at_mac c now mac s I Hlen) as M.
+  cbn [allocate]. rewrite (reserve_fresh c now mac s ip1 En Hp1) in *. cbn [fst snd] in *.
+  set (s1 := State _ _ _) in *.
+  assert (Eat : ip_at s1 (length (leases s)) = ip1) by apply ip_at_snoc.
+  rewrite Eat. destruct (mem_ip ip1 busy) eqn:Eb.
+  - destruct (M _ eq_refl) as (l & El & Elm & _).
+    set (s2 := blocklist c now (length (leases s)) s1).
+    assert (Eips : ips (leases s2) = ips (leases s) ++ [ip1]).
+    { unfold s2. rewrite blocklist_ips. unfold s1. cbn [leases]. rewrite ips_app. reflexivity. }
+    assert (I2 : Inv c s2) by (apply blocklist_inv; exact R).
+    assert (Hm2 : ~ In mac (cmacs (leases s2)))
+      by (rewrite <- Elm; eapply blocklist_clears_mac; eauto).
+    assert (Hn2 : ~ In ip (ips (leases s2))).
+    { rewrite Eips, in_app_iff. cbn. intros [?|[?|[]]]; auto. eapply mem_ip_neq; eauto. }
+    assert (Hlt : (length (free_offs c s2) < length (free_offs c s))%nat).
+    { destruct (next_ip_spec c s ip1 En) as (o & -> & Ho & Hfree).
+      unfold free_offs, s2. rewrite blocklist_offs. unfold s1. cbn [ix offs].
+      apply filter_len_lt with (a := o); auto.
+      - intros x Hq. apply negb_true_iff in Hq. apply negb_true_iff.
+        destruct (offs (ix s) x) eqn:E; auto. exfalso.
+        assert (set_off c (c_start c + o) true (offs (ix s)) x = true)
+          by (apply set_off_true; auto). congruence.
+      - rewrite Hfree. reflexivity.
+      - apply negb_false_iff. apply set_off_true. right. split; auto. lia. }
+    assert (Hf2 : (length (free_offs c s2) < f)%nat) by lia.
+    destruct (IH s2 I2 Hlen Hm2 Hp Hn2 Hb Hf2) as (i & Ei & Hpi & Hni).
+    exists i. split; auto. split; auto. intros Hin. apply Hni. rewrite Eips, in_app_iff. auto.
+  - exists (length (leases s)). cbn [fst snd]. rewrite Eat. auto.
+Qed.
+
 (** A DISCOVER from a client without a lease, while some pool address is in
-    no lease, is answered with an OFFER of a pool address that was in no
-    lease, and that address is now reserved for the client. *)
-Theorem offer_liveness c s now mac ip :
-  Inv c s -> ~ In mac (macs (leases s)) ->
-  in_pool c ip = true -> ~ In ip (ips (leases s)) ->
-  exists ip' s', discover c now mac s = (s', ROk 2 ip') /\
-    in_pool c ip' = true /\ ~ In ip' (ips (leases s)) /\
+    no lease and does not answer the probe, is answered with an OFFER of a
+    pool address that was in no lease and does not answer the probe, and that
+    address is now reserved for the client. *)
+Theorem offer_liveness c s now busy mac ip :
+  Inv c s -> mac_len mac = 6 -> ~ In mac (macs (leases s)) ->
+  in_pool c ip = true -> ~ In ip (ips (leases s)) -> mem_ip ip busy = false ->
+  exists ip' s', discover c now busy mac s = (s', ROk 2 ip') /\
+    in_pool c ip' = true /\ ~ In ip' (ips (leases s)) /\ mem_ip ip' busy = false /\
     exists l, In l (leases s') /\ l_ip l = ip' /\ l_mac l = mac.
 Proof.
-  intros I Hm Hp Hn. pose proof I as [_ X _].
-  destruct (next_ip_some c s ip X Hp Hn) as (ip' & En & Hp').
-  pose proof (next_ip_fresh c s ip' X En) as Hf.
+  intros I Hlen Hm Hp Hn Hb.
   assert (Ef : find_lease mac (leases s) = None).
   { destruct (find_lease mac (leases s)) as [[i l]|] eqn:E; auto. exfalso.
     apply find_index_some in E as [Ei Ep]. cbn in Ep. apply N.eqb_eq in Ep.
     apply Hm. rewrite <- Ep. apply in_map. eapply nth_error_In; eauto. }
-  unfold discover, reserve. rewrite Ef, En.
-  unfold add_lease. cbn [l_static l_ip l_host is_nil negb andb]. rewrite Hp'. cbn [negb].
-  rewrite ip_at_snoc. cbn [l_ip].
-  exists ip'. eexists. split; [reflexivity|]. split; auto. split; auto.
-  cbn [leases store].
-  eexists. split; [apply in_app_iff; right; left; reflexivity|]. cbn. auto.
+  assert (Hfu : (length (free_offs c s) < alloc_fuel c s)%nat).
+  { unfold alloc_fuel, free_offs.
+    assert (Hall : forall l0 : list N,
+               (length (filter (fun o => negb (offs (ix s) o)) l0) <= length l0)%nat).
+    { induction l0 as [|y l0 IHl]; cbn; [lia|]. destruct (negb (offs (ix s) y)); cbn; lia. }
+    specialize (Hall (pool_offsets c)). lia. }
+  pose proof (not_in_cmacs _ _ Hm) as Hm'.
+  destruct (allocate_live c now busy mac ip _ s I Hlen Hm' Hp Hn Hb Hfu) as (i & Ei & Hpi & Hni).
+  destruct (allocate_at c now busy mac _ s I Hlen Hm' i Ei) as (l & El & Elm & _ & Elb).
+  unfold discover. rewrite Ef.
+  destruct (allocate (alloc_fuel c s) c now busy mac s) as [s' r]. cbn [fst snd] in *. subst r.
+  assert (Eat : ip_at s' i = l_ip l) by (unfold ip_at; rewrite El; reflexivity).
+  rewrite Eat in *.
+  exists (l_ip l). eexists. split; [reflexivity|]. repeat split; auto.
+  exists l. cbn [store leases]. split; [eapply nth_error_In; eauto|auto].
 Qed.
 
 (** * Persistence *)
@@ -1303,12 +1669,12 @@ Qed.
 
 Lemma load_fold_all c : forall d s,
   HInv (names (leases s)) (hidx (ix s)) ->
-  (forall l, In l d -> reload_lease l = l /\ range_ok c l = true) ->
+  (forall l, In l d -> reload_lease l = l /\ range_ok c l = true /\ valid_mac (l_mac l) = true) ->
   NoDup (ips (leases s ++ d)) -> UniqueNames (names (leases s ++ d)) ->
   leases (fold_left (load_step c) d s) = leases s ++ d.
 Proof.
   induction d as [|l d IH]; intros s H A N U; cbn; [rewrite app_nil_r; auto|].
-  destruct (A l (or_introl eq_refl)) as [Er Rk].
+  destruct (A l (or_introl eq_refl)) as (Er & Rk & Ev).
   assert (Hc : l_host l = [] \/ hidx (ix s) (l_host l) = None).
   { destruct (l_host l) as [|b t] eqn:Eh; auto. right.
     destruct (hidx (ix s) (b :: t)) as [ip2|] eqn:E; auto. exfalso.
@@ -1319,7 +1685,7 @@ Proof.
     subst ip2. rewrite ips_app in N. apply NoDup_remove_2 in N. apply N.
     rewrite in_app_iff. left. change (l_ip l) with (fst (l_ip l, b :: t)).
     rewrite <- names_fst. apply in_map. exact Hin. }
-  unfold load_step at 2. rewrite Er.
+  unfold load_step at 2. rewrite Ev, Er.
   destruct (add_lease_ok c l s Rk Hc) as (s' & Ea). rewrite Ea.
   destruct (add_lease_hidx _ _ _ _ Ea) as [_ Eh].
   pose proof (add_lease_some _ _ _ _ Ea) as (EL & _).
@@ -1347,14 +1713,15 @@ Proof.
   rewrite load_fold_all; cbn [leases ix hidx empty_index app]; auto.
   - unfold HInv; cbn. intros h ip. split; [discriminate|intros [_ []]].
   - intros l Hl. eapply Permutation_in in Hl; [|apply store_list_perm].
-    apply in_map_iff in Hl as (l0 & <- & Hl0). pose proof I as [[_ _ C D] _ _].
-    split.
+    apply in_map_iff in Hl as (l0 & <- & Hl0). pose proof I as [[_ _ C D E] _ _].
+    split; [|split].
     + unfold reload_lease. cbn [db_lease set_exp l_static l_host l_ip].
       destruct (l_static l0) eqn:Es; cbn [negb andb]; auto.
       destruct (is_nil (l_host l0)) eqn:En; cbn [negb]; auto.
       rewrite (St l0 Hl0 Es); [destruct l0; reflexivity|].
-      intros E. rewrite E in En. discriminate.
+      intros E'. rewrite E' in En. discriminate.
     + unfold range_ok. cbn. destruct (l_static l0) eqn:Es; [apply D|apply C]; auto.
+    + exact (mac_ok_valid l0 (E l0 Hl0)).
   - eapply Permutation_NoDup; [apply Permutation_sym, store_list_ips|]. apply I.
   - apply HInv_unique with (hi := hidx (ix s)).
     eapply HInv_mem; [|exact H]. intros p. split; intros Hp.
@@ -1450,9 +1817,9 @@ Proof.
     + apply in_map_iff in Hin as (l & E & Hl). inversion E; eauto.
 Qed.
 
-Theorem inv_reachable_expanded : forall c h, valid_conf c ->
+Theorem inv_reachable_expanded : forall c h, valid_conf c -> hist_ok h ->
   let s := run c h empty_state in
-  NoDup (map l_ip (leases s)) /\ NoDup (map l_mac (leases s)) /\
+  NoDup (map l_ip (leases s)) /\ NoDup (filter live (map l_mac (leases s))) /\
   (forall l, In l (leases s) -> l_static l = false ->
      in_pool c (l_ip l) = true /\ l_ip l <> c_gw c /\
      forall r, In r (leases s) -> l_static r = true -> l_ip r <> l_ip l) /\
@@ -1463,60 +1830,98 @@ Theorem inv_reachable_expanded : forall c h, valid_conf c ->
      In (c_start c + o) (map l_ip (leases s)) /\ c_start c + o <= c_end c) /\
   (forall h ip, hidx (ix s) h = Some ip <->
      h <> [] /\ exists l, In l (leases s) /\ l_ip l = ip /\ l_host l = h) /\
-  NoDup (map l_ip (disk s)) /\ NoDup (map l_mac (disk s)).
+  NoDup (map l_ip (disk s)) /\ NoDup (filter live (map l_mac (disk s))) /\
+  (forall l, In l (leases s) -> mac_ok l).
 Proof.
-  intros c h V s. pose proof (full_inv_reachable c h) as [I H]. fold s in I, H.
-  pose proof I as [[A B C D] [X Y] [K1 K2 _]].
+  intros c h V Hh s. pose proof (full_inv_reachable c h Hh) as [I H]. fold s in I, H.
+  pose proof I as [[A B C D E] [X Y] [K1 K2 _ _]].
   pose proof (proj1 (HInv_expanded _ _) H) as H'.
   split; [exact A|]. split; [exact B|].
   split; [intros l Hl Hs; apply (dynamic_addresses c s V I); auto|].
   split; [exact D|]. split; [exact X|]. split; [exact Y|]. split; [exact H'|].
-  split; [exact K1|exact K2].
+  split; [exact K1|]. split; [exact K2|exact E].
 Qed.
 
-Theorem one_holder_reachable : forall c h now,
+Lemma live_spec m : live m = true <-> is_blocklisted m = false.
+Proof. unfold live. apply negb_true_iff. Qed.
+
+Theorem one_holder_reachable : forall c h now, hist_ok h ->
   let s := run c h empty_state in
   forall l1 l2, In l1 (active now s) -> In l2 (active now s) ->
-  (l_ip l1 = l_ip l2 \/ l_mac l1 = l_mac l2) -> l1 = l2.
+  (l_ip l1 = l_ip l2 \/ (l_mac l1 = l_mac l2 /\ is_blocklisted (l_mac l1) = false)) -> l1 = l2.
 Proof.
-  intros c h now s l1 l2 H1 H2. apply (one_holder c s); eauto using active_in.
-  apply inv_reachable.
+  intros c h now Hh s l1 l2 H1 H2 E. apply (one_holder c s); eauto using active_in.
+  - apply inv_reachable; auto.
+  - destruct E as [E|[E Hl]]; auto. right. split; auto. apply live_spec; auto.
 Qed.
 
-Theorem reservation_reachable : forall c h now o s' mt yi mac r,
+Theorem reservation_reachable : forall c h now busy o s' mt yi mac r, hist_ok h -> op_ok o ->
   let s := run c h empty_state in
-  step c s now o = (s', ROk mt yi) -> yi <> 0 -> op_mac o = Some mac ->
+  step c s now busy o = (s', ROk mt yi) -> yi <> 0 -> op_mac o = Some mac ->
   In r (leases s') -> l_static r = true -> l_mac r = mac -> yi = l_ip r.
-Proof. intros c h now o s' mt yi mac r s. apply reservation_respected. apply inv_reachable. Qed.
+Proof.
+  intros c h now busy o s' mt yi mac r Hh Ho s. apply reservation_respected; auto.
+  apply inv_reachable; auto.
+Qed.
 
-Theorem liveness_reachable : forall c h now mac ip,
+Theorem liveness_reachable : forall c h now busy mac ip, hist_ok h -> mac_len mac = 6 ->
   let s := run c h empty_state in
-  ~ In mac (map l_mac (leases s)) -> in_pool c ip = true -> ~ In ip (map l_ip (leases s)) ->
-  exists ip' s', step c s now (ODiscover mac) = (s', ROk 2 ip') /\
-    in_pool c ip' = true /\ ~ In ip' (map l_ip (leases s)) /\
+  ~ In mac (map l_mac (leases s)) ->
+  in_pool c ip = true -> ~ In ip (map l_ip (leases s)) -> mem_ip ip busy = false ->
+  exists ip' s', step c s now busy (ODiscover mac) = (s', ROk 2 ip') /\
+    in_pool c ip' = true /\ ~ In ip' (map l_ip (leases s)) /\ mem_ip ip' busy = false /\
     exists l, In l (leases s') /\ l_ip l = ip' /\ l_mac l = mac.
-Proof. intros c h now mac ip s. apply offer_liveness. apply inv_reachable. Qed.
+Proof.
+  intros c h now busy mac ip Hh Hlen s. apply offer_liveness; auto. apply inv_reachable; auto.
+Qed.
 
-(** The full statement of persistence ... *)
-Definition persistence_statement : Prop := forall c h,
+(** An address that answers the probe is never handed to a client that did
+    not hold it already. *)
+Theorem discover_not_busy c s now busy mac s' mt yi :
+  Inv c s -> mac_len mac = 6 -> ~ In mac (macs (leases s)) ->
+  discover c now busy mac s = (s', ROk mt yi) -> mem_ip yi busy = false.
+Proof.
+  intros I Hlen Hm. unfold discover.
+  assert (Ef : find_lease mac (leases s) = None).
+  { destruct (find_lease mac (leases s)) as [[i l]|] eqn:E; auto. exfalso.
+    apply find_index_some in E as [Ei Ep]. cbn in Ep. apply N.eqb_eq in Ep.
+    apply Hm. rewrite <- Ep. apply in_map. eapply nth_error_In; eauto. }
+  rewrite Ef.
+  pose proof (allocate_at c now busy mac (alloc_fuel c s) s I Hlen (not_in_cmacs _ _ Hm)) as R.
+  destruct (allocate _ c now busy mac s) as [s1 r]; cbn [fst snd] in *.
+  destruct r; intros H; inversion H; subst.
+  destruct (R _ eq_refl) as (l & El & _ & _ & Eb). unfold ip_at. rewrite El. exact Eb.
+Qed.
+
+Theorem discover_not_busy_reachable : forall c h now busy mac s' mt yi, hist_ok h -> mac_len mac = 6 ->
+  let s := run c h empty_state in
+  ~ In mac (map l_mac (leases s)) ->
+  step c s now busy (ODiscover mac) = (s', ROk mt yi) -> mem_ip yi busy = false.
+Proof.
+  intros c h now busy mac s' mt yi Hh Hlen s Hm. apply discover_not_busy; auto.
+  apply inv_reachable; auto.
+Qed.
+
+(** The full statement of persistence (block-listed entries included: they
+    are leases of the table like any other) ... *)
+Definition persistence_statement : Prop := forall c h, hist_ok h ->
   let s := run c h empty_state in
   let s' := restart c (store s) in
   Permutation (leases s') (map db_lease (leases s)) /\
   (forall h, ip_by_host s' h = ip_by_host s h) /\
   (forall ip, host_by_ip s' ip = host_by_ip s ip).
 
-(** ... and what is proved of it so far: under the side condition that the
-    names of the dynamic leases are fixed points of the re-validation done on
-    reload (missing: that condition is itself an invariant; it needs
-    idempotence lemmas about [normalize] and [gen_hostname]). *)
-Theorem persistence_partial : forall c h,
+(** ... and the version with the side condition that the names of the
+    dynamic leases are fixed points of the re-validation done on reload
+    (the side condition is discharged in Dhcp4Names.v). *)
+Theorem persistence_partial : forall c h, hist_ok h ->
   let s := run c h empty_state in
   NamesStable (leases s) ->
   let s' := restart c (store s) in
   Permutation (leases s') (map db_lease (leases s)) /\
   (forall h, ip_by_host s' h = ip_by_host s h) /\
   (forall ip, host_by_ip s' ip = host_by_ip s ip).
-Proof. intros c h s St. apply persistence; auto. apply full_inv_reachable. Qed.
+Proof. intros c h Hh s St. apply persistence; auto. apply full_inv_reachable; auto. Qed.
 
 (** Whatever is in memory, the file written by a store lists it once. *)
 Theorem store_exact : forall s,
@@ -1531,14 +1936,18 @@ Definition example_conf : conf :=
 
 Definition example_now : Z := 1790000000000000000%Z.
 
-Definition example_history : list (Z * op) :=
+(** The 6-byte hardware address 00:00:00:00:00:v. *)
+Definition mac6 (v : N) : N := 281474976710656 + v.
+
+(** The first address of the pool answers the probe when client 1 asks. *)
+Definition example_history : list event :=
   let t := example_now in
-  [ (t, ODiscover 1);
-    (t, ORequest 1 (Some 167772162) (Some 167772164) 0 [65; 108; 112; 104; 97]);   (* "Alpha" *)
-    (t, OStaticAdd 2 167772170 [110; 97; 115]);                                       (* "nas" *)
-    (t, ODiscover 3);
-    (t, ORequest 3 (Some 167772162) (Some 167772165) 0 []);
-    (t, ORestart) ].
+  [ (t, [167772164], ODiscover (mac6 1));
+    (t, [], ORequest (mac6 1) (Some 167772162) (Some 167772165) 0 [65; 108; 112; 104; 97]);   (* "Alpha" *)
+    (t, [], OStaticAdd (mac6 2) 167772170 [110; 97; 115]);                                       (* "nas" *)
+    (t, [], ODiscover (mac6 3));
+    (t, [], ORequest (mac6 3) (Some 167772162) (Some 167772166) 0 []);
+    (t, [], ORestart) ].
 
 Fixpoint names_stable_b (L : list lease) : bool :=
   match L with
@@ -1559,29 +1968,40 @@ Proof.
 Qed.
 
 Lemma premises_satisfiable :
-  valid_conf example_conf /\
+  valid_conf example_conf /\ hist_ok example_history /\
+  mac_len (mac6 9) = 6 /\ is_blocklisted (mac6 9) = false /\
   let s := run example_conf example_history empty_state in
-  length (leases s) = 3%nat /\
+  length (leases s) = 4%nat /\
   NamesStable (leases s) /\
   (exists l, In l (leases s) /\ l_static l = true) /\
+  (exists l, In l (leases s) /\ is_blocklisted (l_mac l) = true) /\
   (exists l, In l (active example_now s) /\ l_static l = false) /\
-  ~ In 9 (map l_mac (leases s)) /\
-  (exists ip, in_pool example_conf ip = true /\ ~ In ip (map l_ip (leases s))) /\
-  (exists s' mt yi r, step example_conf s example_now (ODiscover 2) = (s', ROk mt yi) /\ yi <> 0 /\
-     In r (leases s') /\ l_static r = true /\ l_mac r = 2).
+  ~ In (mac6 9) (map l_mac (leases s)) /\
+  (exists ip, in_pool example_conf ip = true /\ ~ In ip (map l_ip (leases s)) /\
+              mem_ip ip [167772166] = false) /\
+  (exists s' mt yi r, step example_conf s example_now [] (ODiscover (mac6 2)) = (s', ROk mt yi) /\
+     yi <> 0 /\ In r (leases s') /\ l_static r = true /\ l_mac r = mac6 2).
 Proof.
   split; [vm_compute; repeat split; congruence|].
+  split; [repeat constructor; vm_compute; auto|].
+  split; [reflexivity|]. split; [reflexivity|].
   intros s.
   pose (L := leases s). assert (Es : leases s = L) by reflexivity. vm_compute in L.
   split; [rewrite Es; reflexivity|].
   split; [apply names_stable_b_spec; rewrite Es; vm_compute; reflexivity|].
-  split; [rewrite Es; eexists; split; [right; right; left; reflexivity|reflexivity]|].
+  split; [rewrite Es; apply existsb_exists; vm_compute; reflexivity|].
+  split; [rewrite Es; apply (proj1 (existsb_exists (fun l => is_blocklisted (l_mac l)) L));
+          vm_compute; reflexivity|].
   split.
-  { unfold active. rewrite Es. eexists. split; [vm_compute; left; reflexivity|reflexivity]. }
+  { assert (H : existsb (fun l => negb (l_static l)) (active example_now s) = true)
+      by (vm_compute; reflexivity).
+    apply existsb_exists in H as (x & Hin & Hx). exists x. split; [exact Hin|].
+    apply negb_true_iff; exact Hx. }
   split; [rewrite Es; vm_compute; intuition congruence|].
-  split; [exists 167772166; rewrite Es; split; [vm_compute; reflexivity|vm_compute; intuition congruence]|].
-  remember (step example_conf s example_now (ODiscover 2)) as r eqn:Er.
+  split; [exists 167772167; rewrite Es; split; [vm_compute; reflexivity|
+          split; [vm_compute; intuition congruence|reflexivity]]|].
+  remember (step example_conf s example_now [] (ODiscover (mac6 2))) as r eqn:Er.
   unfold s in Er. vm_compute in Er. destruct r as [s' rp]. inversion Er; subst.
   do 4 eexists. split; [reflexivity|]. split; [discriminate|].
-  split; [cbn [leases]; right; right; left; reflexivity|]. split; reflexivity.
+  split; [cbn [leases]; do 3 right; left; reflexivity|]. split; reflexivity.
 Qed.
